@@ -24,6 +24,8 @@ CONSTANTS Start,        \* start non-terminal of this configuration
           Fuel,         \* budget
           Quarantine,   \* production labels excluded from this enumeration
           Only,         \* if non-empty: a derivation must use at least one of these labels
+          Allow,        \* if non-empty: the only costly (cost > 0) productions that may be used - a "shape" configuration
+                        \* that spends its fuel on one corner of the grammar
           Emit
 
 VARIABLES stack, out, vals, fuel, nid, nlit, labs, gl
@@ -72,6 +74,7 @@ Expand ==
   /\ \E p \in Prods[Head(stack)[2]] :
         /\ p.c <= fuel
         /\ p.l \notin Quarantine
+        /\ (Allow = {} \/ p.c = 0 \/ p.l \in Allow)
         /\ LET c == Run([Cfg EXCEPT !.stack = p.r \o Tail(stack)])
            IN  /\ stack' = c.stack /\ out' = c.out /\ vals' = c.vals /\ nid' = c.nid /\ nlit' = c.nlit /\ gl' = c.g
                /\ labs' = (IF p.l = "" THEN labs ELSE labs \cup {p.l}) \cup c.lits
